@@ -72,11 +72,82 @@ def random_partition(rng, h, w, n_blocks):
     return blocks
 
 
+def _path_boustrophedon(h, w):
+    out = []
+    for y in range(h):
+        xs = range(w) if y % 2 == 0 else range(w - 1, -1, -1)
+        out.extend([y, x] for x in xs)
+    return out
+
+
+def _path_spiral(h, w):
+    top, left, bottom, right = 0, 0, h - 1, w - 1
+    out = []
+    while top <= bottom and left <= right:
+        out.extend([top, x] for x in range(left, right + 1))
+        out.extend([y, right] for y in range(top + 1, bottom + 1))
+        if top < bottom:
+            out.extend([bottom, x] for x in range(right - 1, left - 1, -1))
+        if left < right:
+            out.extend([y, left] for y in range(bottom - 1, top, -1))
+        top, left, bottom, right = top + 1, left + 1, bottom - 1, right - 1
+    return out
+
+
+def _cut(rng, path, k):
+    k = max(1, min(k, len(path)))
+    cuts = sorted(rng.sample(range(1, len(path)), k - 1)) if k > 1 else []
+    out, prev = [], 0
+    for c in cuts + [len(path)]:
+        out.append(path[prev:c])
+        prev = c
+    return out
+
+
+def crafted_partition(rng, h, w):
+    """Shapes a random walk from one rectangle rarely reaches: rings (blocks with a hole), long
+    snakes, spirals, combs, stripes."""
+    kind = rng.choice(["ring", "snake", "spiral", "comb", "stripes", "single"])
+    if kind == "ring" and h >= 3 and w >= 3:
+        blocks = []
+        top, left, bottom, right = 0, 0, h - 1, w - 1
+        while top <= bottom and left <= right:
+            ring = [[y, x] for y in range(top, bottom + 1) for x in range(left, right + 1) if y in (top, bottom) or x in (left, right)]
+            blocks.append(ring)
+            top, left, bottom, right = top + 1, left + 1, bottom - 1, right - 1
+    elif kind == "snake":
+        blocks = _cut(rng, _path_boustrophedon(h, w), rng.choice([1, 2, 3, 4]))
+    elif kind == "spiral":
+        blocks = _cut(rng, _path_spiral(h, w), rng.choice([1, 2, 3]))
+    elif kind == "comb" and h >= 2 and w >= 3:
+        comb = [[0, x] for x in range(w)] + [[y, x] for x in range(0, w, 2) for y in range(1, h)]
+        blocks = [comb] + [[[y, x] for y in range(1, h)] for x in range(1, w, 2)]
+    elif kind == "stripes":
+        if rng.random() < 0.5:
+            blocks = [[[y, x] for x in range(w)] for y in range(h)]
+        else:
+            blocks = [[[y, x] for y in range(h)] for x in range(w)]
+    else:
+        blocks = [[[y, x] for y in range(h) for x in range(w)]]
+    for b in blocks:
+        if rng.random() < 0.7:
+            rng.shuffle(b)
+    rng.shuffle(blocks)
+    return blocks
+
+
 def generate(rng, tier, index):
     h = rng.choice([1, 1, 2, 2, 3, 3, 3, 4, 4, 5])
     w = rng.choice([1, 2, 2, 3, 3, 4, 4, 5])
+    crafted = rng.random() < 0.3
+    if crafted:
+        h = rng.choice([2, 3, 3, 4, 5, 5, 6, 7, 3, 8])
+        w = rng.choice([3, 3, 4, 5, 5, 6, 7, 8, 2]) if h < 8 else rng.choice([2, 3])
     n = h * w
-    target = random_partition(rng, h, w, rng.randint(1, max(1, min(n, rng.choice([2, 3, 4, 6, 9, n])))))
+    if crafted:
+        target = crafted_partition(rng, h, w)
+    else:
+        target = random_partition(rng, h, w, rng.randint(1, max(1, min(n, rng.choice([2, 3, 4, 6, 9, n])))))
     sizes = [len(b) for b in target]
     nb = len(target)
 
@@ -96,13 +167,25 @@ def generate(rng, tier, index):
         "det": rng.randrange(10**6) if rng.random() < 0.3 else None,
     }
     r = rng.random()
-    if r < 0.4:
+    if crafted:
+        sc["initial_blocks"] = target
+        if rng.random() < 0.3:
+            # tight bounds: every block exactly as large as the largest / as many blocks as cells
+            q = rng.random()
+            if q < 0.4 and len(set(sizes)) == 1:
+                sc["min_size"] = sc["max_size"] = sizes[0]
+            elif q < 0.7:
+                sc["max_num"] = n
+                sc["min_size"] = None
+            else:
+                sc["min_num"] = sc["max_num"] = nb
+    elif r < 0.4:
         sc["initial_blocks"] = None
     elif r < 0.8:
         sc["initial_blocks"] = target
     else:
         sc["initial_blocks"] = random_partition(rng, h, w, rng.randint(1, n))
-    steps = rng.choice([3, 8, 15, 25, 40])
+    steps = rng.choice([3, 8, 15, 25, 40]) if not crafted else rng.choice([2, 5, 10, 20])
     sc["walk"] = [rng.randrange(10**6) for _ in range(steps)]
     # bias of the walk: prefer an update kind for stretches so that merge/split/move all occur
     sc["prefer"] = [rng.choice(["any", "merge", "split", "move"]) for _ in range(steps)]
@@ -126,7 +209,7 @@ def _is_partition_json(blocks, h, w):
 def valid(sc):
     try:
         h, w = sc["h"], sc["w"]
-        if h < 1 or w < 1 or h * w > 36:
+        if h < 1 or w < 1 or h * w > 64:
             return False
         for k in ("min_num", "max_num", "min_size", "max_size"):
             if sc[k] is not None and sc[k] < 1:
